@@ -381,7 +381,7 @@ def ob_sig_table(run, oid):
                         if isinstance(t, tuple) and t and t[0] == "is_some":
                             if not asg[i]:
                                 return True
-                        elif isinstance(t, tuple) and t and t[0] == "call" and (t[1].endswith("is_none_or") or t[1].endswith("::verify")):
+                        elif isinstance(t, tuple) and t and t[0] == "call" and (t[1].endswith("is_none_or") or t[1].endswith("::verify") or (t[1].endswith("::map_or") and len(t[2]) == 3 and K.const_eval(t[2][1]) == 1)):
                             if asg[i]:
                                 return True
                     return False
@@ -389,7 +389,7 @@ def ob_sig_table(run, oid):
                 ok = bool(trues) and all(satisfied(f, a) for a in trues for f in halves)
                 # and a failed verification of a present half makes the verdict false
                 for i, t in enumerate(terms):
-                    if isinstance(t, tuple) and t and t[0] == "call" and (t[1].endswith("is_none_or") or t[1].endswith("::verify")):
+                    if isinstance(t, tuple) and t and t[0] == "call" and (t[1].endswith("is_none_or") or t[1].endswith("::verify") or (t[1].endswith("::map_or") and len(t[2]) == 3 and K.const_eval(t[2][1]) == 1)):
                         ok = ok and not any(v and not a[i] and not any(
                             isinstance(terms[j], tuple) and terms[j][0] == "is_some" and not a[j] and set(n for (_o, n) in mir.fields_in(terms[j][1][0])) & set(n for (_o, n) in mir.fields_in(t))
                             for j in range(len(terms))) for a, v in table.items())
